@@ -697,9 +697,23 @@ def sec_roundtrip(chk):
                             hsamp = np.array(fh[f"samples/{i}/" + k] if k else fh[f"samples/{i}"])
                             if not np.array_equal(hsamp, arr[i]):
                                 f2.append(dict(case=f"hdf5 n={nn} multi={multi}", detail=f"exported sample {i} differs"))
+        # floating point: samples with a large common offset (|mean| / scatter = 1e5 .. 1e7); the statistics must stay accurate (the
+        # streaming update is numerically stable; a sum-of-squares formula is not) -- assumption A-REAL does not cover this, so it is run natively
+        for offset, scatter in ((1e5, 1e-2), (1e7, 1.), (-3e6, 0.5)):
+            for nn in (3, 8):
+                n2 += 1
+                vals = [offset + scatter * rng.standard_normal(dom.shape) for _ in range(nn)]
+                sl = ift.SampleList([ift.makeField(dom, a) for a in vals])
+                m, v = sl.sample_stat()
+                arr = np.array(vals)
+                cen = arr - arr.mean(axis=0)
+                ref_v = (cen * cen).sum(axis=0) / (nn - 1)                 # two-pass reference on centred data
+                if not (np.allclose(m.asnumpy(), arr.mean(axis=0), rtol=1e-14) and np.allclose(v.asnumpy(), ref_v, rtol=1e-6)):
+                    f2.append(dict(case=f"sample_stat with offset {offset:g} and scatter {scatter:g}, n={nn}: variance loses accuracy (relative error "
+                                        f"{np.max(np.abs(v.asnumpy() / ref_v - 1)):.1e})", detail=""))
         chk.bounded("sample_stat and HDF5 export equal numpy mean / unbiased variance / the samples",
                     bound="n in {1,2,3,7} x Field/MultiField, tolerance 1e-11 relative on the variance (documented float "
-                          "tolerance of the streaming update)", cases=n2, nontrivial=n2 - 2, failures=f2,
+                          "tolerance of the streaming update); samples with offsets up to 1e7 times their scatter: 1e-6", cases=n2, nontrivial=n2 - 2, failures=f2,
                     samples=[dict(n=7, multi=True)], kind="B-runtime")
     finally:
         shutil.rmtree(tmp, ignore_errors=True)
